@@ -266,7 +266,8 @@ package openapi3
 //@   preserves @C04 Info.Title, Info.Version, Info.Extensions, License.Name, License.Extensions, ExternalDocs.URL, ExternalDocs.Extensions, Response.Description, RequestBody.Content, RequestBody.Extensions, Operation.Responses, Operation.Extensions, Server.URL, Server.Variables, Server.Extensions, SecurityScheme.*, map[string]*ServerVariable
 //@   ensures [required-fields] result == nil ==> old(server.URL) != ""
 //@   ensures [variables-declared] result == nil ==> strCount(old(server.URL), "{") == strCount(old(server.URL), "}") && strCount(old(server.URL), "{") == old(len(server.Variables))
-//@   option safety-tags none
+//@   loop 0 invariant @C20 seenset() == keys(variables) && fresh(variables)
+//@   option safety-tags C20
 //@   tag C04
 // security schemes (OpenAPI 3.0.3 "Security Scheme Object"): which fields go with which type
 //@ spec secSchemeOK(ss *SecurityScheme) bool :=
@@ -286,3 +287,24 @@ package openapi3
 //@   ensures [extensions] result == nil ==> extensionsOK(old(ss.Extensions))
 //@   option safety-tags none
 //@   tag C04
+
+// C20: the element validators are only reached with an object (a null list or map entry is
+// reported, not dereferenced)
+//@ func (*ServerVariable).Validate
+//@   requires serverVariable != nil
+//@   modifies *
+//@   option safety-tags C20
+//@   tag C20
+//@ func (*Tag).Validate
+//@   requires t != nil
+//@   modifies *
+//@   option safety-tags C20
+//@   tag C20
+//@ func (Servers).Validate
+//@   modifies *
+//@   option safety-tags C20
+//@   tag C20
+//@ func (Tags).Validate
+//@   modifies *
+//@   option safety-tags C20
+//@   tag C20
